@@ -455,7 +455,7 @@ func c18() *report.Check {
 	return &report.Check{
 		Level: "exploration",
 		Rule: "every request of the generated space (7 methods x paths from every OpenAPI template by parameter substitution and spelling mutation x 3 bodies, built by net/http's request parser; plus URL objects with RawPath != Path) served by the real router with writes off and on, twice each, and under every iteration order of every kproapi map range met; after each request the canonical requests of its template are served again on the same servers (two-request histories) and the decision compared with the fresh servers' one; with writes off the canonical request of every operation with the database panicking / failing at every round trip; two requests in flight with writes off: every pair of {canonical request of each operation, one undefined-method request per template} under every interleaving of the two handler threads with at most 2 (thorough 3) preemptions at statement granularity of keyper/kproapi and keyper/kprapi (cooperative scheduler over sources instrumented with yield points); " +
-			"oracles: writes off => no receive on trigger/shutdown channel, no DB change, no handler of an operation not marked x-read-only reached; read-only operations answer identically in both modes; same verdict under every map order and on repetition; classes = status + who answered + effects, per mode",
+			"oracles: writes off => no receive on trigger/shutdown channel, no DB change, no handler of an operation not marked x-read-only reached; read-only operations answer identically in both modes; a request with a query component is answered like the same method and path without it; same verdict under every map order and on repetition; classes = status + who answered + effects, per mode",
 		Assumptions: []string{
 			"the request reaches the router as net/http's ReadRequest parses it (the server's own parser); request lines it refuses never reach the router and are counted as a class",
 			"'reached an operation' = its effect was observed (channel receive, database change, p2p send) or the inner chi router recorded the operation's endpoint pattern for the request method in the routing context supplied by the harness",
